@@ -17,7 +17,8 @@ TIE = ('tie A: per lru_cache\'d function the key parameters, the module-level na
 TECHNIQUE = 'Lean 4 invariant proof over a memoisation state machine parametrised by facts extracted from the source + fresh-interpreter differential oracle'
 PROVED = ['a memoised function whose key contains everything its body reads and that hands out no cached container returns, after ANY history of calls, '
           'toggles, caller mutations and cache clears, what the un-memoised body computes under the current switches',
-          'every lru_cache\'d function of the current source meets that condition; no model module holds hidden mutable state (by evaluation of the extracted tables)']
+          'every lru_cache\'d function of the current source meets that condition; no model module holds hidden mutable state, no library function rebinds a module-level name or assigns an attribute of an imported module (the switches are written '
+          'by the caller only), every decorator in the library is one the model understands (by evaluation of the extracted tables)']
 HYPOTHESES = []
 MONITORED = ['memoisation by other means than functools.lru_cache / module-level containers recognised by the extractor (searched: every call compared with '
              'the same call in a freshly reloaded interpreter state)']
